@@ -261,6 +261,37 @@ def dispatch_cases(ctx, curves):
     return out
 
 
+def modpow_anchor():
+    """Model.FieldPow mirrors monty_modpow of num-bigint-dig as pinned by corpus/C16/modpow_anchor.json: the version and
+    checksum in the tree's Cargo.lock, the text of monty.rs in the cargo registry, the window width and the limb width."""
+    import glob
+    import hashlib
+    import json
+    want = json.load(open(os.path.join(common.VERIF, "corpus", "C16", "modpow_anchor.json")))
+    got = {}
+    lock = open(os.path.join(common.REPO, "Cargo.lock")).read()
+    m = re.search(r'name = "num-bigint-dig"\nversion = "([^"]+)"\nsource = "[^"]*"\nchecksum = "([0-9a-f]+)"', lock)
+    if not m:
+        return {"status": "changed", "why": "Cargo.lock has no registry entry for num-bigint-dig", "got": got}
+    got["version"], got["checksum"] = m.group(1), m.group(2)
+    toml = open(os.path.join(common.REPO, "circom_algebra", "Cargo.toml")).read()
+    got["default_features"] = not re.search(r"num-bigint-dig\s*=\s*\{[^}]*default-features\s*=\s*false", toml)
+    got["pow_body"] = " ".join(re.search(r"pub fn pow\(.*?\n\}", open(os.path.join(
+        common.REPO, "circom_algebra/src/modular_arithmetic.rs")).read(), re.S).group(0).split())
+    srcs = glob.glob(os.path.expanduser("~/.cargo/registry/src/*/num-bigint-dig-%s/src/monty.rs" % got["version"]))
+    if srcs:
+        text = open(srcs[0]).read()
+        got["monty_sha256"] = hashlib.sha256(text.encode()).hexdigest()
+        w = re.search(r"let n = (\d+);", text)
+        got["window_bits"] = int(w.group(1)) if w else None
+        feat = open(os.path.join(os.path.dirname(os.path.dirname(srcs[0])), "Cargo.toml")).read()
+        got["u64_digit_default"] = bool(re.search(r'default = \[[^\]]*"u64_digit"', feat))
+    diff = [k for k in want if k in got and got[k] != want[k]]
+    if diff:
+        return {"status": "changed", "why": ", ".join("%s: %r (mirrored: %r)" % (k, got[k], want[k]) for k in diff), "got": got}
+    return {"status": "same" if srcs else "registry source not found: version and checksum only", "got": got}
+
+
 SEXP_TOK = re.compile(r"\(|\)|[^\s()]+")
 
 
@@ -374,6 +405,8 @@ def run(ctx, proofs):
     HARNESS_BIN = common.build_harness("field")
     MODEL_BIN = common.build_model("field")
     primes = primes_from_source()
+    import time
+    t0 = time.time()
     disagreements = []
     failing = []
     evaluations = 0
@@ -403,6 +436,8 @@ def run(ctx, proofs):
         if not ok:
             failing.append({"case": head, "impl": ri, "spec": rs})
         nontrivial.add((op, ri))
+    common.log("C16 small-field sweep: %.1fs" % (time.time() - t0))
+    t0 = time.time()
     # (b) shipped primes
     cs = cases(ctx, primes)
     lines = [fmt(c) for c in cs]
@@ -430,11 +465,32 @@ def run(ctx, proofs):
             if not ok:
                 failing.append({"case": lines[i], "impl": ri, "spec": rs})
             nontrivial.add((op, p, ri))
+    common.log("C16 functions on the shipped primes: %.1fs" % (time.time() - t0))
+    t0 = time.time()
+    # (b') the multiplication sequence of `**` (Model.FieldPow): same value as the implementation, and the number of
+    # modular multiplications it makes is the proved function of the exponent's limb count
+    pow_idx = [i for i, c in enumerate(cs) if c[0] == "pow" and c[1] < c[3] and c[2] < c[3]]
+    steps_l = common.run_lines(MODEL_BIN, ["pow-steps"], [lines[i] for i in pow_idx], shards=common.NPROC)
+    max_steps = 0
+    for i, ls in zip(pow_idx, steps_l):
+        m = re.match(r"ok ([0-9a-f]+) steps (\d+)$", ls.split(" = ")[1])
+        ri = impl_l[i].split(" = ")[1]
+        e = cs[i][2]
+        want = 17 if e == 0 else 80 * ((e.bit_length() + 63) // 64) + 13
+        if not m or "ok " + m.group(1) != ri or int(m.group(2)) != want:
+            disagreements.append({"case": lines[i], "impl": ri, "model": "Model.FieldPow.modpow_steps: " + ls.split(" = ")[1]
+                                  + " (expected %d multiplications)" % want})
+        else:
+            max_steps = max(max_steps, int(m.group(2)))
+    anchor = modpow_anchor()
+    common.log("C16 multiplication sequence of pow: %.1fs" % (time.time() - t0))
+    t0 = time.time()
     # (c) the operator dispatch of expression_impl.rs through the real value propagation
     disp = run_dispatch(ctx, HARNESS_BIN, MODEL_BIN)
     evaluations += disp["cases"]
     disagreements += disp["disagreements"]
     failing += disp["failing"]
+    common.log("C16 dispatch: %.1fs" % (time.time() - t0))
     # verdict
     for f in failing[:5]:
         ctx.violation("field operation differs from Circom's documented semantics: %s gives %s, specified %s"
@@ -448,7 +504,11 @@ def run(ctx, proofs):
         elif proofs["failures"]:
             ctx.violation("proof obligations of C16 no longer check: " + "; ".join(proofs["failures"])[:500],
                           {"broken": "props/C16.v", "failures": proofs["failures"]}, no_input=True)
+    if anchor["status"] == "changed" and not failing and not disagreements:
+        ctx.violation("the library code mirrored by Model.FieldPow (num-bigint-dig monty_modpow) is not the one linked: " + anchor["why"],
+                      {"broken": "structure mirror Model.FieldPow vs num-bigint-dig", "anchor": anchor}, no_input=True)
     ctx.coverage.update({
+        "pow_structure": {"cases": len(pow_idx), "max_multiplications": max_steps, "anchor": anchor},
         "evaluations": evaluations,
         "distinct_nontrivial": len(nontrivial),
         "rule": "every operation on every operand pair of the prime fields %s (exhaustive), plus boundary values "
